@@ -9,6 +9,7 @@ import (
 	"math"
 	"os"
 	"path/filepath"
+	"reflect"
 	"sort"
 	"strconv"
 	"strings"
@@ -17,6 +18,7 @@ import (
 
 	"github.com/pinealctx/neptune/syncx/pipe/mux"
 
+	"nvharness/lib/c14q"
 	"nvharness/lib/corr"
 	"nvharness/lib/go2lean"
 	"nvharness/lib/gofacts"
@@ -114,6 +116,18 @@ func extract(repo, leanDir string) {
 	fifo := all(gofacts.Has(mq.Body("Q", "AddReq"), "{ a.lock.Lock() defer a.lock.Unlock() if a.closed { return ErrClosed } if a.reqMaxNum > 0 { if a.reqList.Len() >= a.reqMaxNum { return ErrQFull } } a.reqList.PushBack(req) a.cond.Broadcast() return nil }"),
 		gofacts.Has(mq.Body("Q", "PopAnyway"), "{ a.lock.Lock() defer a.lock.Unlock() for a.reqList.Len() == 0 { if a.closed { return nil, ErrClosed } a.cond.Wait() } var front = a.reqList.Front() if front != nil { a.reqList.Remove(front) return front.Value, nil } return nil, ErrSync }"))
 
+	cx := gofacts.MustLoad(repo, "syncx/pipe/mux/cacheex.go")
+	eq := func(recv, fn, want string) bool { return gofacts.Norm(cx.Body(recv, fn)) == gofacts.Norm(want) }
+	facade := all(eq("", "NewFacadeMap", "{ var m = &FacadeMap{} m.Init() return m }"),
+		eq("FacadeMap", "Peek", "{ return m.Get(key) }"),
+		cx.Func("FacadeMap", "Get") == nil && cx.Func("FacadeMap", "Set") == nil && cx.Func("FacadeMap", "Delete") == nil,
+		eq("_wrapper", "Size", "{ var sizeV, ok = w.v.(cache.Value) if ok { return sizeV.Size() } return 1 }"),
+		eq("", "NewFacadeLRU", "{ var m = &FacadeLRU{} m.Init(capacity) return m }"),
+		eq("FacadeLRU", "Peek", "{ var w, ok = m.LRUCache.Peek(key) if !ok { return nil, false } return w.(_wrapper).v, true }"),
+		eq("FacadeLRU", "Get", "{ var w, ok = m.LRUCache.Get(key) if !ok { return nil, false } return w.(_wrapper).v, true }"),
+		eq("FacadeLRU", "Set", "{ m.LRUCache.Set(key, _wrapper{v: value}) }"),
+		eq("FacadeLRU", "Delete", "{ m.LRUCache.Delete(key) }"))
+
 	del := "unknown"
 	bd := wk.Body("Worker", "handleDelete")
 	switch {
@@ -123,13 +137,13 @@ func extract(repo, leanDir string) {
 		del = "cacheFirst"
 	}
 
-	facts := []bool{loadOK, addPeek, addOK, updOK, uoaOK, utlOK, utrOK, fast, consumer, route, fifo}
+	facts := []bool{loadOK, addPeek, addOK, updOK, uoaOK, utlOK, utrOK, fast, consumer, route, fifo, facade}
 	var fs []string
 	for _, b := range facts {
 		fs = append(fs, gofacts.LeanBool(b))
 	}
 	out := "import Nv.Model.C15\nset_option linter.unusedVariables false\n" +
-		"/-! GENERATED by `c15 extract` from syncx/pipe/mux/{wgroup,worker,gas,q}.go — do not edit. -/\n" +
+		"/-! GENERATED by `c15 extract` from syncx/pipe/mux/{wgroup,worker,gas,q,cacheex}.go — do not edit. -/\n" +
 		"namespace Nv.Gen.C15\n" + kernel +
 		"def cfg : Nv.C15.Cfg := ⟨." + del + "⟩\n" +
 		"def facts : Nv.C15.Facts := ⟨" + strings.Join(fs, ", ") + "⟩\n" +
@@ -152,18 +166,29 @@ var (
 type pair struct{ k, v int }
 
 type store struct {
-	mu     sync.Mutex
-	m      map[int]int
-	faults []bool
-	trace  []string
-	busy   map[int]bool // key -> a callback for it is executing (serialisation monitor)
-	bad    map[int]bool // keys already reported incoherent in this group (later sightings are consequences)
-	hits   map[string]string
-	slow   bool // stress: widen the window inside callbacks
+	mu      sync.Mutex
+	m       map[int]int
+	faults  []byte        // one token per callback invocation: '0' ok, '1' fail, 'c' ok but the caller's context is cancelled meanwhile
+	cancel  func()        // cancels the context of the operation in flight
+	block   chan struct{} // when set, the next callback parks on it once (pile)
+	applied map[int][]int // key -> data values applied by upsert callbacks, in order (pile)
+	trace   []string
+	busy    map[int]bool // key -> a callback for it is executing (serialisation monitor)
+	bad     map[int]bool // keys already reported incoherent in this group (later sightings are consequences)
+	hits    map[string]string
+	slow    bool // stress: widen the window inside callbacks
+}
+
+// model value 0 is the Go value nil: a callback may legitimately hand back (nil, nil) for an existing row
+func iface(v int) interface{} {
+	if v == 0 {
+		return nil
+	}
+	return v
 }
 
 func newStore() *store {
-	return &store{m: map[int]int{}, busy: map[int]bool{}, bad: map[int]bool{}, hits: map[string]string{}}
+	return &store{applied: map[int][]int{}, m: map[int]int{}, busy: map[int]bool{}, bad: map[int]bool{}, hits: map[string]string{}}
 }
 
 func (s *store) hit(key, what string) {
@@ -176,15 +201,26 @@ func (s *store) hit(key, what string) {
 func (s *store) enter(cb string, k int) (fault bool, leave func()) {
 	s.mu.Lock()
 	s.trace = append(s.trace, cb)
+	var tok byte = '0'
 	if len(s.faults) > 0 {
-		fault = s.faults[0]
+		tok = s.faults[0]
 		s.faults = s.faults[1:]
 	}
+	fault = tok == '1'
+	cancel := s.cancel
+	block := s.block
+	s.block = nil
 	if s.busy[k] {
 		s.hit("C15:mux:same-key-callbacks-overlap", fmt.Sprintf("callback %s for key %d entered while another callback for that key was executing", cb, k))
 	}
 	s.busy[k] = true
 	s.mu.Unlock()
+	if tok == 'c' && cancel != nil {
+		cancel()
+	}
+	if block != nil {
+		<-block
+	}
 	if s.slow {
 		time.Sleep(20 * time.Microsecond)
 	}
@@ -201,7 +237,7 @@ func (s *store) load(ctx context.Context, d interface{}) (interface{}, error) {
 	s.mu.Lock()
 	defer s.mu.Unlock()
 	if v, ok := s.m[k]; ok {
-		return v, nil
+		return iface(v), nil
 	}
 	return nil, errNotFound
 }
@@ -219,16 +255,20 @@ func (s *store) add(ctx context.Context, d interface{}) (interface{}, error) {
 		return nil, errExists
 	}
 	s.m[p.k] = p.v
-	return p.v, nil
+	return iface(p.v), nil
 }
 
 // staleCheck: an existing item handed to a callback must be what the store holds (coherence at the moment of use)
-func (s *store) staleCheck(cb string, k int, e interface{}) {
-	if e == nil {
+func (s *store) staleCheck(cb string, k int, e interface{}, nilIsZero bool) {
+	if e == nil && !nilIsZero {
 		return
 	}
 	cur, ok := s.m[k]
-	if ev, isInt := e.(int); (!isInt || !ok || ev != cur) && !s.bad[k] {
+	ev, isInt := e.(int)
+	if e == nil {
+		ev, isInt = 0, true
+	}
+	if (!isInt || !ok || ev != cur) && !s.bad[k] {
 		s.bad[k] = true
 		s.hit("C15:"+cb+":stale-item-handed-to-callback", fmt.Sprintf("%s for key %d received existing item %v, the store holds %v (present=%v)", cb, k, e, cur, ok))
 	}
@@ -243,13 +283,13 @@ func (s *store) upd(ctx context.Context, d interface{}, e interface{}) (interfac
 	}
 	s.mu.Lock()
 	defer s.mu.Unlock()
-	s.staleCheck("updFn", p.k, e)
+	s.staleCheck("updFn", p.k, e, true)
 	if _, ok := s.m[p.k]; !ok {
 		return nil, errNotFound
 	}
 	ev, _ := e.(int)
 	s.m[p.k] = ev + p.v
-	return ev + p.v, nil
+	return iface(ev + p.v), nil
 }
 
 func (s *store) upsert(ctx context.Context, d interface{}, e interface{}) (interface{}, error) {
@@ -261,13 +301,14 @@ func (s *store) upsert(ctx context.Context, d interface{}, e interface{}) (inter
 	}
 	s.mu.Lock()
 	defer s.mu.Unlock()
-	s.staleCheck("upsertFn", p.k, e)
+	s.staleCheck("upsertFn", p.k, e, false)
+	s.applied[p.k] = append(s.applied[p.k], p.v)
 	base := s.m[p.k]
 	if ev, ok := e.(int); ok {
 		base = ev
 	}
 	s.m[p.k] = base + p.v
-	return base + p.v, nil
+	return iface(base + p.v), nil
 }
 
 func (s *store) del(ctx context.Context, d interface{}) error {
@@ -295,7 +336,9 @@ type group struct {
 	home    map[int]int // key -> worker whose cache was seen holding it
 }
 
-func newGroup(lru bool, capN, workers int) *group {
+func newGroup(lru bool, capN, workers int) *group { return newGroupDeep(lru, capN, workers, 256) }
+
+func newGroupDeep(lru bool, capN, workers, deep int) *group {
 	gr := &group{st: newStore(), keys: map[int]bool{}, home: map[int]int{}}
 	gr.g = mux.NewWorkGrp(func() mux.CacheFacade {
 		var f mux.CacheFacade
@@ -306,7 +349,7 @@ func newGroup(lru bool, capN, workers int) *group {
 		}
 		gr.facades = append(gr.facades, f)
 		return f
-	}, mux.WithSize(workers), mux.WithDeep(256))
+	}, mux.WithSize(workers), mux.WithDeep(deep))
 	gr.g.Start()
 	return gr
 }
@@ -318,10 +361,16 @@ func (gr *group) close() {
 	cancel()
 }
 
-func canonRes(r interface{}, err error) string {
+func canonRes(op string, r interface{}, err error) string {
 	switch {
-	case err == nil && r == nil:
+	case err == nil && r == nil && op == "del":
 		return "nil"
+	case err == nil && r == nil:
+		return "ok:0"
+	case err == context.Canceled:
+		return "err:ctx"
+	case err == mux.ErrQFull:
+		return "err:full"
 	case err == nil:
 		if v, ok := r.(int); ok {
 			return "ok:" + strconv.Itoa(v)
@@ -339,10 +388,25 @@ func canonRes(r interface{}, err error) string {
 	return "err?" + err.Error()
 }
 
+// barrierKey hashes like key h but is never a cache key of the scripts: an operation on it goes through the same worker
+type barrierKey struct{ h int }
+
+func (b barrierKey) HashedInt() int { return b.h }
+
+// barrier returns when the worker of key k has finished everything queued before (FIFO, one consumer)
+func (gr *group) barrier(k int) {
+	defer func() { _ = recover() }()
+	_, _ = gr.g.DoGet(context.Background(), func(context.Context, interface{}) (interface{}, error) { return nil, errInj }, barrierKey{k})
+}
+
 func (gr *group) do(op string, k, v int) (res string) {
-	ctx := context.Background()
+	ctx, cancel := context.WithCancel(context.Background())
+	defer cancel()
 	key := mux.Int(k)
 	st := gr.st
+	st.mu.Lock()
+	st.cancel = cancel
+	st.mu.Unlock()
 	done := make(chan string, 1)
 	go func() {
 		defer func() {
@@ -378,7 +442,7 @@ func (gr *group) do(op string, k, v int) (res string) {
 		case "utr":
 			r, err = gr.g.DoUpsertThenRenewInCache(ctx, st.upsert, key, pair{k, v})
 		}
-		done <- canonRes(r, err)
+		done <- canonRes(op, r, err)
 	}()
 	select {
 	case res = <-done:
@@ -390,9 +454,43 @@ func (gr *group) do(op string, k, v int) (res string) {
 }
 
 // peek reads every worker's cache without touching recency
+// rawPeek reads a facade's underlying cache directly (not through the facade methods under test); nil reads as 0
+func rawPeek(f mux.CacheFacade, key interface{}) (interface{}, bool) {
+	norm := func(v interface{}) interface{} {
+		if v == nil {
+			return 0
+		}
+		return v
+	}
+	switch x := f.(type) {
+	case *mux.FacadeMap:
+		v, ok := x.Map.Get(key)
+		return norm(v), ok
+	case *mux.FacadeLRU:
+		w, ok := x.LRUCache.Peek(key)
+		if !ok {
+			return nil, false
+		}
+		rv := reflect.ValueOf(w)
+		if rv.Kind() == reflect.Struct && rv.NumField() == 1 && rv.Field(0).Kind() == reflect.Interface {
+			fv := rv.Field(0)
+			if fv.IsNil() {
+				return 0, true
+			}
+			if e := fv.Elem(); e.CanInt() {
+				return int(e.Int()), true
+			}
+			return "?" + fv.Elem().Kind().String(), true
+		}
+		return "?" + rv.Kind().String(), true
+	}
+	v, ok := f.Peek(key)
+	return norm(v), ok
+}
+
 func (gr *group) peek(k int) (where []int, vals []interface{}) {
 	for i, f := range gr.facades {
-		if v, ok := f.Peek(mux.Int(k)); ok {
+		if v, ok := rawPeek(f, mux.Int(k)); ok {
 			where = append(where, i)
 			vals = append(vals, v)
 		}
@@ -429,7 +527,7 @@ func (gr *group) checkCoherent(site string) {
 var handlerOf = map[string]string{"get": "handleLoad", "add": "handleAdd", "upd": "handleUpdate", "del": "handleDelete",
 	"uoa": "handleMixUpdOrAddIfNull", "utl": "handleMixUpsertThenLoad", "utr": "handleMixUpsertThenRenewInCache"}
 
-func (gr *group) op(op string, k, v int, faults []bool) string {
+func (gr *group) op(op string, k, v int, faults []byte) string {
 	gr.keys[k] = true
 	st := gr.st
 	cachedBefore, _ := gr.peek(k)
@@ -437,6 +535,9 @@ func (gr *group) op(op string, k, v int, faults []bool) string {
 	st.faults, st.trace = faults, nil
 	st.mu.Unlock()
 	res := gr.do(op, k, v)
+	if strings.ContainsRune(string(faults), 'c') && res != "panic" {
+		gr.barrier(k) // the caller may have left before the handler finished
+	}
 	st.mu.Lock()
 	trace := append([]string{}, st.trace...)
 	st.faults = nil
@@ -444,7 +545,7 @@ func (gr *group) op(op string, k, v int, faults []bool) string {
 		st.hit("C15:handleAdd:store-touched-for-cached-key", fmt.Sprintf("add on cached key %d: result %s, callbacks %v (expected duplicate-key error and no callback)", k, res, trace))
 	}
 	st.mu.Unlock()
-	if op == "del" && res == "nil" {
+	if op == "del" && (res == "nil" || (res == "err:ctx" && len(trace) == 1 && !strings.ContainsRune(string(faults), '1'))) {
 		if w, _ := gr.peek(k); len(w) > 0 {
 			st.mu.Lock()
 			st.hit("C15:handleDelete:entry-still-cached", fmt.Sprintf("delete of key %d succeeded but worker %v still caches it", k, w))
@@ -475,7 +576,7 @@ func stress(lru bool, capN, workers int, seed, n int, hits map[string]string) {
 				// faults are drawn by whichever callback runs next (shared list): any pattern is a legal fault sequence
 				if rr.Chance(1, 4) {
 					gr.st.mu.Lock()
-					gr.st.faults = append(gr.st.faults, true)
+					gr.st.faults = append(gr.st.faults, '1')
 					gr.st.mu.Unlock()
 				}
 				gr.do(ops[rr.Intn(len(ops))], keys[rr.Intn(len(keys))], rr.Range(1, 9))
@@ -522,25 +623,98 @@ func parseNat(s string, max int) (int, bool) {
 	return v, v <= max
 }
 
-func parseFaults(s string) ([]bool, bool) {
+func parseFaults(s string) ([]byte, bool) {
 	if s == "-" {
 		return nil, true
 	}
 	if len(s) > 8 || s == "" {
 		return nil, false
 	}
-	var out []bool
 	for _, ch := range s {
-		switch ch {
-		case '0':
-			out = append(out, false)
-		case '1':
-			out = append(out, true)
-		default:
+		if ch != '0' && ch != '1' && ch != 'c' {
 			return nil, false
 		}
 	}
-	return out, true
+	return []byte(s), true
+}
+
+// pile: one worker is kept busy inside a callback, further operations on the same key are submitted one at a time
+// (each observed at quiescence: parked = accepted, returned = turned away), then the worker is released.
+// The operations must be applied one at a time in acceptance order. Runs on a fresh group; judged by monitors only.
+func pile(lru bool, capN, workers, k, m int, hits map[string]string) {
+	gr := newGroupDeep(lru, capN, workers, 2)
+	st := gr.st
+	settle := func() {
+		if err := c14q.Quiesce(20 * time.Second); err != nil {
+			fmt.Fprintln(os.Stderr, "harness error:", err)
+			os.Exit(2)
+		}
+	}
+	type sub struct {
+		v    int
+		done chan string
+		res  string
+	}
+	submit := func(v int) *sub {
+		s := &sub{v: v, done: make(chan string, 1)}
+		go func() {
+			defer func() {
+				if recover() != nil {
+					s.done <- "panic"
+				}
+			}()
+			r, err := gr.g.DoUpsertThenRenewInCache(context.Background(), st.upsert, mux.Int(k), pair{k, v})
+			s.done <- canonRes("utr", r, err)
+		}()
+		return s
+	}
+	block := make(chan struct{})
+	st.mu.Lock()
+	st.block = block
+	st.mu.Unlock()
+	subs := []*sub{submit(100)}
+	settle()
+	for i := 1; i <= m; i++ {
+		s := submit(i)
+		settle()
+		select {
+		case s.res = <-s.done:
+		default:
+		}
+		subs = append(subs, s)
+	}
+	close(block)
+	for _, s := range subs {
+		if s.res == "" {
+			select {
+			case s.res = <-s.done:
+			case <-time.After(20 * time.Second):
+				fmt.Fprintln(os.Stderr, "harness error: pile did not drain within 20 s")
+				os.Exit(2)
+			}
+		}
+	}
+	gr.barrier(k)
+	var want []int
+	for _, s := range subs {
+		if strings.HasPrefix(s.res, "ok:") {
+			want = append(want, s.v)
+		}
+	}
+	st.mu.Lock()
+	got := append([]int{}, st.applied[k]...)
+	if fmt.Sprint(got) != fmt.Sprint(want) && subs[0].res != "panic" {
+		st.hit("C15:asyncCall:same-key-order", fmt.Sprintf("operations on key %d were accepted in order %v (others were turned away) but applied to the store in order %v", k, want, got))
+	}
+	st.mu.Unlock()
+	gr.keys[k] = true
+	gr.checkCoherent("pile")
+	gr.close()
+	for key, v := range st.hits {
+		if _, ok := hits[key]; !ok {
+			hits[key] = v
+		}
+	}
 }
 
 func runScript(lines []string) ([]string, map[string]string) {
@@ -590,6 +764,13 @@ func runScript(lines []string) ([]string, map[string]string) {
 			f, ok3 := parseFaults(w[3])
 			if ok1 && ok2 && ok3 {
 				out = gr.op(w[0], k, v, f)
+			}
+		case len(w) == 4 && w[0] == "pile" && gr != nil:
+			k, ok1 := parseKey(w[1])
+			m, ok2 := parseNat(w[2], 16)
+			if ok1 && ok2 && w[3] == "-" {
+				pile(lru, capN, workers, k, m, hits)
+				out = "done"
 			}
 		case len(w) == 4 && w[0] == "stress" && gr != nil:
 			seed, ok1 := parseNat(w[1], 999999999)
@@ -656,12 +837,12 @@ func genFaults(r *rng.R) string {
 	case 5:
 		return "01"
 	case 6:
-		return r.Pick("001", "10", "11", "011")
+		return r.Pick("001", "10", "11", "011", "c", "c", "0c", "c1", "1c", "c0c")
 	}
 	n := r.Range(1, 4)
 	b := make([]byte, n)
 	for i := range b {
-		b[i] = "01"[r.Intn(2)]
+		b[i] = "0011c"[r.Intn(5)]
 	}
 	return string(b)
 }
@@ -695,7 +876,11 @@ func genScript(r *rng.R, tier string) []string {
 		case 2:
 			lines = append(lines, fmt.Sprintf("del %d %s", k, genFaults(r)))
 		case 3, 4, 5, 6, 7, 8:
-			lines = append(lines, fmt.Sprintf("%s %d %d %s", valueOps[r.Intn(len(valueOps))], k, r.Range(1, 99), genFaults(r)))
+			v := r.Range(1, 99)
+			if r.Chance(1, 6) {
+				v = 0 // the nil value
+			}
+			lines = append(lines, fmt.Sprintf("%s %d %d %s", valueOps[r.Intn(len(valueOps))], k, v, genFaults(r)))
 		case 9:
 			lines = append(lines, fmt.Sprintf("peek %d", k))
 		case 10:
@@ -711,7 +896,7 @@ func genScript(r *rng.R, tier string) []string {
 }
 
 func genGarbage(r *rng.R) []string {
-	toks := []string{"new", "get", "add", "upd", "del", "uoa", "utl", "utr", "peek", "store", "stress", "map", "lru", "0", "1", "-1", "-", "01", "2", "x",
+	toks := []string{"new", "get", "add", "upd", "del", "uoa", "utl", "utr", "peek", "store", "stress", "pile", "c", "0c", "cx", "map", "lru", "0", "1", "-1", "-", "01", "2", "x",
 		"99999999999999999999", "1000", "+1", "", "012", "-9223372036854775809"}
 	lines := []string{r.Pick("new map 0 1", "new lru 2 2", "new bogus 1 1", "new lru 65 1", "new map 0 0", "new lru 1 129")}
 	for i := 0; i < 8; i++ {
@@ -728,7 +913,7 @@ func genGarbage(r *rng.R) []string {
 // every handler branch (cache hit / miss × store present / absent) under every fault pattern of length ≤ 3
 func enumCases() []corr.Case {
 	var cs []corr.Case
-	faults := []string{"-", "1", "01", "11", "001", "011", "101", "111"}
+	faults := []string{"-", "1", "01", "11", "001", "011", "101", "111", "c", "0c", "c1"}
 	setups := map[string][]string{
 		"absent":        nil,
 		"stored":        {"utr 1 5 -"},              // in the store, not cached
@@ -768,6 +953,10 @@ func fixedCases() []corr.Case {
 	add("witness-F15", "new lru 8 127", "get "+min+" -", "get -127 -", "get 127 -", "add 254 1 -", "peek 254")
 	add("boundary", "new lru 1 1", "add 1 5 -", "add 2 6 -", "peek 1", "peek 2", "add 1 9 -", "upd 1 2 -", "peek 1", "peek 2", "del 1 1", "del 1 -", "peek 1", "store 1")
 	add("boundary", "new map 0 2", "uoa 1 5 1", "uoa 1 5 01", "uoa 1 5 -", "uoa 1 2 1", "uoa 1 2 -", "peek 1", "store 1", "utl -1 3 01", "peek -1", "store -1", "utl -1 3 -", "peek -1")
+	add("boundary", "new lru 4 1", "add 1 0 -", "peek 1", "add 1 7 -", "upd 1 0 -", "get 1 -", "add 1 3 -", "utl 2 0 -", "add 2 1 -", "uoa 3 0 -", "add 3 2 -", "peek 3", "store 3")
+	add("boundary", "new map 0 1", "add 1 5 -", "del 1 c", "peek 1", "store 1", "add 2 5 -", "upd 2 1 c", "peek 2", "utl 3 1 cc", "peek 3", "utl 4 1 c1", "peek 4", "store 4")
+	add("pile", "new map 0 1", "pile 1 5 -", "add 1 1 -")
+	add("pile", "new lru 2 3", "pile -2 4 -")
 	add("stress", "new map 0 2", "stress 1 8 -", "add 1 1 -", "peek 1")
 	add("stress", "new lru 2 3", "stress 2 8 -", "get 1 -")
 	return append(cs, enumCases()...)
@@ -796,6 +985,10 @@ func spec() corr.Spec {
 			switch {
 			case i%40 == 11:
 				return corr.Case{Tag: "malformed", Lines: genGarbage(r)}
+			case i%100 == 33:
+				ls := genScript(r, tier)
+				ls = append(ls, fmt.Sprintf("pile %d %d -", keyPool[r.Intn(8)], r.Range(2, 8)))
+				return corr.Case{Tag: "script+pile", Lines: ls}
 			case i%200 == 57 || (tier != "quick" && i%50 == 7):
 				ls := genScript(r, tier)
 				ls = append(ls, fmt.Sprintf("stress %d %d -", r.Range(0, 1<<20), r.Range(4, 16)))
